@@ -2,6 +2,7 @@ SPECIFICATION GSpec
 CONSTANTS
   Mode = "texts"
   MaxLen = 4
+  SteerOverlapBytes = TRUE
   NA = 9
 INVARIANT SpecTokensOk
 INVARIANT OffsLemma
